@@ -95,6 +95,7 @@ PENDING = {
     "getitem:None+int-list&split-chunks:TypeError@_task_spec.py:__call__": "x[None, [1, 2]] when an output chunk gathers from two input chunks: concatenate_arrays() loses its axis argument",
     "getitem:None+int+int-list:IndexError@array/slicing.py:slice_with_newaxes": "x[[1], 0, None]: tuple index out of range",
     "getitem:None+int+array-index:size-1-axis-misplaced": "x[[1, 2], 0, None, 0:2]: computed value has the new axis in the wrong place (lazy shape right) - silent",
+    "getitem:None+int+array-index:shape": "same family (blocks concatenated along the wrong axis / combined with the axis-order difference) - silent",
     "getitem:None+dask-int-array:AssertionError@array/slicing.py:slice_with_int_dask_array": "None together with a dask integer indexer: assert len(index) == x.ndim",
     "getitem:None+dask-bool-array:IndexError@array/slicing.py:getitem_variadic": "None together with a 1-d dask boolean indexer",
     # integer + array separated by a slice: NumPy moves the broadcast axis first, dask does not
@@ -149,6 +150,7 @@ def cases(tier, seed):
         chunks = A.rand_chunks(rng, shape)
         while np.prod([len(c) for c in chunks] or [1]) > 120:
             chunks = tuple(A.rand_comp(rng, s, rng.choice(("one", "two", "regular"))) for s in shape)
+        chunks = IX.with_zero_chunks(rng, chunks)
         op = rng.choice(("getitem",) * 7 + ("vindex",) * 2 + ("blocks",))
         d = {"op": op, "shape": list(shape), "chunks": [list(c) for c in chunks], "dtype": rng.choice(DTYPES),
              "threads": rng.random() < 0.1, "bare": False}
@@ -370,8 +372,10 @@ def classify(op, shape, chunks, dtype, enc, bare, sym):
     toks = IX.tokens(enc_m, shape_m)
     if sym_m == "array-axis-not-moved-first":
         feat = "int&array-index-separated"
-    elif (sym_m == "size-1-axis-misplaced" and "None" in toks and any(t.startswith(("int", "np-int")) and "-" not in t[:4] for t in toks)
+    elif (sym_m in ("size-1-axis-misplaced", "shape", "values") and "None" in toks
+          and any(t in ("int", "int<0", "np-int", "np-int<0") for t in toks)
           and any(t.startswith(("int-list", "int-array", "bool-list", "bool-array")) for t in toks)):
+        # None + integer + array index: several interacting defects of slice_with_newaxes give varying shapes
         feat = "None+int+array-index"
     else:
         feat = IX.label_features(enc_m, shape_m, chunks_m, layout=not fixed)
